@@ -529,3 +529,13 @@ def run_case(case):
             "harnesses_with_single_canonical_forest": 1 if nforests == 1 else 0,
         },
     )
+
+
+def sanity(summary, tier):
+    x = summary["extra"]
+    probs = []
+    if x.get("thr_distinct_emission_orders", 0) < 100 or x.get("aio_distinct_emission_orders", 0) < 100:
+        probs.append("too few distinct emission orders: the workers were not interleaved")
+    if x.get("harnesses_with_single_canonical_forest", 0) != summary["evaluations"]:
+        probs.append("a harness produced no or several canonical forests")
+    return probs
